@@ -76,8 +76,10 @@ class Sched:
     """State of one execution."""
 
     def __init__(self, prefix=(), *, max_steps=20000, max_clock=1e9, timer_deviations=True,
-                 release_points=True, start_clock=1000.0, record_desc=False, switch_cost=0):
+                 release_points=True, start_clock=1000.0, record_desc=False, switch_cost=0,
+                 only_seams=False):
         self.switch_cost = switch_cost
+        self.only_seams = only_seams   # plain points (lock release, notify, is_set ...) are not offered
         self.prefix = prefix
         self.max_steps = max_steps
         self.max_clock = max_clock
@@ -276,6 +278,14 @@ class Sched:
 
     # ---- API used by the virtual primitives ----------------------------------------------------------
     def point(self, desc=None):
+        if self.only_seams:
+            return
+        cur = self.me()
+        if cur is None or cur is not self.running:
+            return
+        self._switch(cur, desc)
+
+    def seam_point(self, desc=None):
         cur = self.me()
         if cur is None or cur is not self.running:
             return
@@ -288,6 +298,8 @@ class Sched:
             raise RuntimeError("virtual primitive used from an unmanaged thread")
         if self.aborting:
             raise Abort
+        if self.only_seams and pred():
+            return True   # uncontended primitive: not a scheduling point in seam-only mode
         cur.pred = pred
         cur.deadline = None if timeout is None else self.clock + max(0.0, timeout)
         cur.timed_out = False
